@@ -20,10 +20,10 @@ func c14(c *eng.Ctx, r *eng.Report) {
 	r.Explain = "Shape of BLS verification and of the encodings around it, decided on the SSA of consensus/groupsig and its bn256 package: " +
 		"R14.1 VerifySig returns true only as PairIsEuqal(Pair(sig, G2 generator), Pair(H(msg), pub)) of its own three arguments, after rejecting a nil or invalid signature and an invalid key; " +
 		"R14.2 the signature decoders consume both results of G1.Unmarshal and reject left-over bytes; " +
-		"R14.3 G1/G2.Unmarshal return a nil error only after the length test and, for a non-infinity point, IsOnCurve(); " +
+		"R14.3 G1/G2.Unmarshal return a nil error only after the length test and, for a non-infinity point, IsOnCurve(), and assign the projective coordinates z and t on every accepted path (parsing overwrites the whole point, whatever the receiver held); " +
 		"R14.4 Sign/VerifySig consult no process-local mutable state (no cache, package-variable store, map range, clock or randomness in their cone), so the verdict is a function of (key, message, signature) only; " +
 		"R14.5 wherever the bytes of a big integer are placed into a fixed-width big-endian buffer they are right-aligned (`copy(buf[W-len(b):], b)`), so values with leading zero bytes encode faithfully. " +
-		"R14.6 keys, signatures and scalars are values — Sign, VerifySig, GeneratePubkey, AggregatePubkeys and hashToG1 perform in-place curve operations only on objects they allocate (never through an argument or a shallow copy of one: Signature/Pubkey wrap a pointer), and every modular reduction of a scalar in the package is modulo the group order, so the scalar Sign multiplies by is the one GeneratePubkey exponentiates. " +
+		"R14.6 keys, signatures and scalars are values — Sign, VerifySig, GeneratePubkey, AggregatePubkeys, hashToG1 and the Miller loop of the pairing (which normalises copies of its operands, never the operands: a key is paired against concurrently) perform in-place curve operations only on objects they allocate (never through an argument or a shallow copy of one: Signature/Pubkey wrap a pointer), and every modular reduction of a scalar in the package is modulo the group order, so the scalar Sign multiplies by is the one GeneratePubkey exponentiates. " +
 		"R14.7 VerifySig is the only function of the node that evaluates the signature pairing (no second, e.g. aggregated, definition of validity), and the scalar hex printer/parser are an inverse pair. " +
 		"R14.8 the pairing is 1 as soon as either operand is the identity: optimalAte tests IsInfinity() of both its operands and sets the result to one under either (e(P,O) = e(O,Q) = 1 is what bilinearity needs at k = 0 and k = order). " +
 		"R14.9 a groupsig function whose pointer result some caller dereferences without a nil test (`*groupsig.DeserializeSign(raw)`) has no nil return — a malformed signature from a peer verifies as false, it does not crash the verifier. " +
@@ -36,10 +36,12 @@ func c14(c *eng.Ctx, r *eng.Report) {
 	c14LeftPad(c, r)
 	// R14.6 keys, signatures and scalars are values: nothing in signing, verification, key derivation or
 	// aggregation writes through an input, and every scalar reduction is modulo the group order
-	r.Min("R14.6", 8)
+	r.Min("R14.6", 10)
 	inputsUntouched(c, r, "R14.6", []roEnt{
 		{"consensus/groupsig", "Sign"}, {"consensus/groupsig", "VerifySig"}, {"consensus/groupsig", "GeneratePubkey"},
 		{"consensus/groupsig", "AggregatePubkeys"}, {"consensus/groupsig", "hashToG1"},
+		// the pairing normalises private copies of its operands: a key is paired against by many goroutines at once
+		{"consensus/groupsig/bn256", "miller"}, {"consensus/groupsig/bn256", "optimalAte"},
 	})
 	groupsigScalarField(c, r, "R14.6")
 	c14Verifiers(c, r)
@@ -192,7 +194,7 @@ func c14Decoders(c *eng.Ctx, r *eng.Report) {
 
 func c14Unmarshal(c *eng.Ctx, r *eng.Report) {
 	const rule = "R14.3"
-	r.Min(rule, 2)
+	r.Min(rule, 6)
 	for _, spec := range []struct {
 		name string
 		need int64
@@ -254,6 +256,37 @@ func c14Unmarshal(c *eng.Ctx, r *eng.Report) {
 			}
 		}
 		r.Check(len(bad) == 0, rule, "bn256."+spec.name, c.Pos(fn.Pos()), "accepts only a full-length encoding of the infinity point or of a point on the curve", strings.Join(uniq(bad), "; "))
+		// parsing overwrites the whole point: the receiver may already hold a value (a key variable that is
+		// re-used, an identity from an earlier parse), so besides x and y the projective coordinates z and t are
+		// assigned on every accepted path — SetOne for an affine point, SetZero for the identity
+		for _, coord := range []string{"z", "t"} {
+			var sets []ssa.Instruction
+			for _, st := range eng.Sites(fn) {
+				n := st.Name()
+				if (strings.HasSuffix(n, ".SetOne") || strings.HasSuffix(n, ".SetZero")) && len(st.Common().Args) > 0 && strings.HasSuffix(eng.Desc(st.Common().Args[0]), "."+coord) {
+					sets = append(sets, st.Instr)
+				}
+			}
+			for _, b := range fn.Blocks {
+				for _, in := range b.Instrs {
+					if st, isSt := in.(*ssa.Store); isSt {
+						if _, f := eng.FieldOf(st.Addr); f == coord {
+							sets = append(sets, in)
+						}
+					}
+				}
+			}
+			missing := ""
+			for _, re := range eng.Returns(fn) {
+				if !eng.IsNilConst(re.Incoming(1)) {
+					continue
+				}
+				if !eng.MustPassBefore(fn, re.Ret, sets) {
+					missing = c.Pos(re.Ret.Pos())
+				}
+			}
+			r.Check(len(sets) > 0 && missing == "", rule, "bn256."+spec.name+":"+coord+"-assigned", c.Pos(fn.Pos()), "the "+coord+" coordinate is assigned on every accepted path", spec.name+" can accept an encoding (return at "+missing+") without assigning the point's "+coord+" coordinate: parsed into a receiver that already holds a value — an identity (z = 0), or a key that was computed and never serialised (z ≠ 1) — the stale coordinate stays, so a valid key parses as the identity (and the all-zero signature then verifies for any message) or is rejected as off-curve")
+		}
 	}
 }
 
